@@ -60,6 +60,27 @@ struct Fiber {
     ended: bool,
     /// ended by an "ignore write error" decision
     ignored: bool,
+    /// the last thing it met was a plan target without a connection (its error is then that pool error)
+    last_pool: bool,
+}
+
+fn new_fiber(target: usize, ended: bool, last_pool: bool) -> Fiber {
+    Fiber { current: None, target, cl: CL0, failures: vec![], ended, ignored: false, last_pool }
+}
+
+/// Pull the next plan target that hands out a connection; also says whether connection-less targets were skipped.
+fn take_next(next_target: &mut usize, pr: &Params) -> (Option<usize>, bool) {
+    let mut skipped = false;
+    while *next_target < pr.p {
+        let t = *next_target;
+        *next_target += 1;
+        if pr.mask >> t & 1 == 1 {
+            skipped = true;
+            continue;
+        }
+        return (Some(t), skipped);
+    }
+    (None, skipped)
 }
 
 #[derive(Default, Debug)]
@@ -94,6 +115,8 @@ struct Params {
     m: usize,
     idem: bool,
     pol: Policy,
+    /// bit t set = plan target t hands out no connection
+    mask: u32,
 }
 
 impl Params {
@@ -116,7 +139,7 @@ fn one_execution(pr: Params, fails: &[Sym], ch: &mut Chooser) -> RunOut {
                 speculative: Some(Arc::new(SimpleSpeculativeExecutionPolicy { max_retry_count: pr.m, retry_interval: INTERVAL })),
                 request_timeout: None,
                 history_listener: Some(listener.clone()),
-                targets: vec![true; pr.p],
+                targets: (0..pr.p).map(|t| pr.mask >> t & 1 == 0).collect(),
             };
             let atts: Rc<RefCell<Vec<Att>>> = Rc::new(RefCell::new(Vec::new()));
             let atts2 = atts.clone();
@@ -137,14 +160,16 @@ fn one_execution(pr: Params, fails: &[Sym], ch: &mut Chooser) -> RunOut {
             // what the last event must have started: (fiber, target, consistency)
             let mut expect_new: Option<(usize, usize, Cl)>;
             // fiber 0 starts at once
-            if pr.p > 0 {
-                fibers.push(Fiber { current: None, target: 0, cl: CL0, failures: vec![], ended: false, ignored: false });
-                expect_new = Some((0, 0, CL0));
-                next_target = 1;
-            } else {
-                fibers.push(Fiber { current: None, target: 0, cl: CL0, failures: vec![], ended: true, ignored: false });
-                model.complete(0, Outcome::Exhausted);
-                expect_new = None;
+            match take_next(&mut next_target, &pr) {
+                (Some(t), _) => {
+                    fibers.push(new_fiber(t, false, false));
+                    expect_new = Some((0, t, CL0));
+                }
+                (None, skipped) => {
+                    fibers.push(new_fiber(0, true, skipped));
+                    model.complete(0, if skipped { Outcome::Ignorable } else { Outcome::Exhausted });
+                    expect_new = None;
+                }
             }
             let mut seen_atts = 0usize;
             let mut seen_decisions = 0usize;
@@ -229,7 +254,8 @@ fn one_execution(pr: Params, fails: &[Sym], ch: &mut Chooser) -> RunOut {
                         }
                         (Some(Expected::Success(f)), ExecResult::IgnoredWriteError { coordinator }) => fibers[f].ignored && *coordinator == fibers[f].target,
                         (Some(Expected::Success(f)), ExecResult::Completed { coordinator, token }) if !fibers[f].ignored => *coordinator == fibers[f].target && Some(token.as_str()) == fibers[f].current.map(|a| format!("attempt{a}")).as_deref(),
-                        (Some(Expected::DefinitiveError(f)), ExecResult::Err(RequestError::LastAttemptError(e))) | (Some(Expected::IgnorableError(f)), ExecResult::Err(RequestError::LastAttemptError(e))) => match (att_of(f), fibers[f].failures.last()) {
+                        (Some(Expected::IgnorableError(f)), ExecResult::Err(RequestError::ConnectionPoolError(_))) => fibers[f].last_pool,
+                        (Some(Expected::DefinitiveError(f)), ExecResult::Err(RequestError::LastAttemptError(e))) | (Some(Expected::IgnorableError(f)), ExecResult::Err(RequestError::LastAttemptError(e))) if !fibers[f].last_pool => match (att_of(f), fibers[f].failures.last()) {
                             (Some(a), Some(&(_, s))) => format!("{e:?}") == format!("{:?}", error_for_attempt(&fails[s].err, a)),
                             _ => false,
                         },
@@ -297,14 +323,17 @@ fn one_execution(pr: Params, fails: &[Sym], ch: &mut Chooser) -> RunOut {
                             }
                         } else if model.tick() == 1 {
                             let f = fibers.len();
-                            if next_target < pr.p {
-                                fibers.push(Fiber { current: None, target: next_target, cl: CL0, failures: vec![], ended: false, ignored: false });
-                                expect_new = Some((f, next_target, CL0));
-                                next_target += 1;
-                            } else {
-                                // nothing left in the plan: the new execution ends at once without a result
-                                fibers.push(Fiber { current: None, target: 0, cl: CL0, failures: vec![], ended: true, ignored: false });
-                                model.complete(f, Outcome::Exhausted);
+                            match take_next(&mut next_target, &pr) {
+                                (Some(t), _) => {
+                                    fibers.push(new_fiber(t, false, false));
+                                    expect_new = Some((f, t, CL0));
+                                }
+                                (None, skipped) => {
+                                    // nothing usable left in the plan: the new execution ends at once, without a result
+                                    // (or with the pool error of a connection-less target it met)
+                                    fibers.push(new_fiber(0, true, skipped));
+                                    model.complete(f, if skipped { Outcome::Ignorable } else { Outcome::Exhausted });
+                                }
                             }
                         }
                     }
@@ -335,11 +364,15 @@ fn one_execution(pr: Params, fails: &[Sym], ch: &mut Chooser) -> RunOut {
                             let end_class = if FAILS[s].1 { Outcome::Ignorable } else { Outcome::Definitive };
                             match d {
                                 Decision::RetrySame(_) => expect_new = Some((f, fibers[f].target, cl)),
-                                Decision::RetryNext(_) if next_target < pr.p => {
-                                    expect_new = Some((f, next_target, cl));
-                                    next_target += 1;
-                                }
-                                Decision::RetryNext(_) | Decision::DontRetry => {
+                                Decision::RetryNext(_) => match take_next(&mut next_target, &pr) {
+                                    (Some(t), _) => expect_new = Some((f, t, cl)),
+                                    (None, skipped) => {
+                                        fibers[f].ended = true;
+                                        fibers[f].last_pool = skipped;
+                                        model.complete(f, if skipped { Outcome::Ignorable } else { end_class });
+                                    }
+                                },
+                                Decision::DontRetry => {
                                     fibers[f].ended = true;
                                     model.complete(f, end_class);
                                 }
@@ -377,7 +410,7 @@ fn one_execution(pr: Params, fails: &[Sym], ch: &mut Chooser) -> RunOut {
 }
 
 fn case_json(pr: Params, choices: &[usize]) -> Value {
-    json!({"leg":"exec-spec","policy":pr.pol.name(),"p":pr.p,"max_speculative":pr.m,"idempotent":pr.idem,"choices":choices})
+    json!({"leg":"exec-spec","policy":pr.pol.name(),"p":pr.p,"max_speculative":pr.m,"idempotent":pr.idem,"no_conn_mask":pr.mask,"choices":choices})
 }
 
 fn main() {
@@ -400,6 +433,7 @@ fn main() {
             m: case["max_speculative"].as_u64().unwrap_or(0) as usize,
             idem: case["idempotent"].as_bool().unwrap_or(false),
             pol: case["policy"].as_str().and_then(Policy::from_name).unwrap_or(Policy::Default),
+            mask: case["no_conn_mask"].as_u64().unwrap_or(0) as u32,
         };
         let choices: Vec<usize> = case["choices"].as_array().map(|a| a.iter().map(|v| v.as_u64().unwrap_or(0) as usize).collect()).unwrap_or_default();
         let mut ch = Chooser::new(choices);
@@ -429,7 +463,11 @@ fn main() {
                     if p + m > 6 {
                         continue;
                     }
-                    sweeps.push(Params { p, m, idem, pol });
+                    // every subset of connection-less targets for the Default policy on plans up to 3 targets
+                    let masks: u32 = if pol == Policy::Default && p <= 3 { 1 << p } else { 1 };
+                    for mask in 0..masks {
+                        sweeps.push(Params { p, m, idem, pol, mask });
+                    }
                 }
             }
         }
@@ -476,14 +514,14 @@ fn main() {
         }
         if let Some(c) = &res.capped {
             capped = true;
-            r.note(&format!("capped_{}_p{}_m{}_idem{}", pr.pol.name(), pr.p, pr.m, pr.idem), json!(c));
+            r.note(&format!("capped_{}_p{}_m{}_idem{}_mask{}", pr.pol.name(), pr.p, pr.m, pr.idem, pr.mask), json!(c));
         }
         r.eval(res.executions);
         r.states.fetch_add(states.load(Ordering::Relaxed), Ordering::Relaxed);
         r.transitions.fetch_add(transitions.load(Ordering::Relaxed), Ordering::Relaxed);
         r.traces_validated.fetch_add(audited.load(Ordering::Relaxed), Ordering::Relaxed);
         r.nontrivial(nontrivial.load(Ordering::Relaxed));
-        r.counters.add(&format!("executions_{}_{}_p{}_m{}", pr.pol.name(), if pr.idem { "idem" } else { "nonidem" }, pr.p, pr.m), res.executions);
+        r.counters.add(&format!("executions_{}_{}_p{}_m{}{}", pr.pol.name(), if pr.idem { "idem" } else { "nonidem" }, pr.p, pr.m, if pr.mask != 0 { "_some_targets_without_connection" } else { "" }), res.executions);
         r.counters.max("max_choice_points", res.max_points as u64);
         for v in res.violations.iter() {
             let (key, text) = v.what.split_once(" :: ").unwrap_or(("exec:unknown", &v.what));
@@ -495,7 +533,7 @@ fn main() {
                 }
             }
             r.traces_validated.fetch_add(2, Ordering::Relaxed);
-            r.violation(key, &format!("{text} | policy={} p={} max_speculative={} idempotent={} schedule={:?}", pr.pol.name(), pr.p, pr.m, pr.idem, v.choices), case_json(pr, &v.choices));
+            r.violation(key, &format!("{text} | policy={} p={} no_conn_mask={:#b} max_speculative={} idempotent={} schedule={:?}", pr.pol.name(), pr.p, pr.mask, pr.m, pr.idem, v.choices), case_json(pr, &v.choices));
         }
     }
     let oc = outcomes.into_inner().unwrap();
@@ -508,7 +546,7 @@ fn main() {
     }
     r.set_rule(&format!("E-ASYNC, full enumeration: plan length 0..={max_p} x max speculative count 0..={max_m} x idempotent flag Default retry policy (and DowngradingConsistency for plan 1..={dmax_p} x max 0..={dmax_m}, with WriteTimeout(SIMPLE) as a fifth failure), initial consistency QUORUM; events complete(attempt, success | Overloaded | ReadTimeout(enough replies, no data) | Unavailable(alive=2) | SyntaxError) and timer tick, one event then polling to quiescence. states/transitions = choice points (+terminal states) / alternatives of the schedule tree; traces_validated = schedules re-executed from recorded choices with identical observation trace (1-in-{audit_k} deterministic subset + 2x per violation). distinct_nontrivial = schedules with two attempts in flight at once (idempotent) or a timer tick between two attempts (non-idempotent)."));
     r.set_exhaustive(!capped);
-    r.assume("which fiber-ending errors are 'definitive' vs curable elsewhere is fixed per symbol in the harness (SyntaxError definitive; Overloaded / ReadTimeout / Unavailable ignorable); all plan targets hand out a connection (C06-B covers targets without one)");
+    r.assume("which fiber-ending errors are 'definitive' vs curable elsewhere is fixed per symbol in the harness (SyntaxError definitive; Overloaded / ReadTimeout / Unavailable ignorable); a pool error (target without connection) counts as ignorable");
     r.sample(json!({"p":3,"max_speculative":1,"idempotent":true,"events":["Tick","Complete(0,Overloaded)","Complete(1,success)"],"attempts":[[0,"QUORUM"],[1,"QUORUM"],[2,"QUORUM"]],"note":"execution 0 moves to target 2 because execution 1 holds target 1"}));
     r.finish();
 }
